@@ -103,7 +103,7 @@ CHECKS = [
      "note": "hourly finiteness depends on fitted coefficients and scalers (bounded only); the data class's contiguous index is C17",
      "not_covered": ["hourly predictions finite for every fitted model (bounded sample only)"],
      },
-    {"id": "C02", "level": "other", "modules": ["contracts.C02_frames"], "bounded": ["flow.C02_flow", "bounded.C02_history"], "engine": "pyvc+flow",
+    {"id": "C02", "level": "other", "modules": ["contracts.C02_frames"], "bounded": ["flow.C02_flow", "flow.C02_owned", "bounded.C02_history"], "engine": "pyvc+flow",
      "technique": "flow contracts (assigns / frame conditions) checked by abstract interpretation of the real AST + deductive frame obligations on fit (pyvc) + bounded histories",
      "text": "Frame conditions in the SPARK tradition: for predict, fit, the data-class constructors/from_series and the window functions a "
              "flow-sensitive points-to/effect analysis of /repo's AST (engine B) discharges 'nothing reachable from a parameter is mutated', "
